@@ -77,16 +77,28 @@ package file
 //@ loop 1: invariant forall id string, k int :: {dagV[graph][id], s.Tasks[id].TaskDependencies[k]} dagV[graph][id] && qpos[id] < i && 0 <= k && k < len(s.Tasks[id].TaskDependencies) ==> dagV[graph][s.Tasks[id].TaskDependencies[k]] && dagE[graph][s.Tasks[id].TaskDependencies[k]][id]
 //@ loop 1: invariant forall k int :: {requestedTask.TaskDependencies[k]} 0 <= k && k < $i ==> dagV[graph][requestedTask.TaskDependencies[k]] && dagE[graph][requestedTask.TaskDependencies[k]][name]
 
-// expandGlobs (C05 gives it its functional contract): here only its frame.
+// cached expansions are only reused when non-empty, and then they are current
+//@ pred GlobsCurrent(s *SpokFile) := forall p string :: {s.Globs[p]} dom(s.Globs, p) && len(s.Globs[p]) > 0 ==> s.Globs[p] == globSpec(fsid, s.Dir, p)
+
+// expandGlobs: afterwards every glob pattern of every task maps to its expansion over the current tree
 //@ func (*SpokFile).expandGlobs
-//@ trusted functional contract and body: see C05
+//@ props C05
+//@ requires s.Globs != nil && GlobsCurrent(s)
 //@ modifies mapOf(s.Globs)
+//@ ensures GlobsCurrent(s)
+//@ ensures [C05,every-dependency-pattern-expanded] result == nil ==> forall t string, k int :: {s.Tasks[t].GlobDependencies[k]} dom(s.Tasks, t) && 0 <= k && k < len(s.Tasks[t].GlobDependencies) ==> s.Globs[s.Tasks[t].GlobDependencies[k]] == globSpec(fsid, s.Dir, s.Tasks[t].GlobDependencies[k])
+//@ ensures [C05,every-output-pattern-expanded] result == nil ==> forall t string, k int :: {s.Tasks[t].GlobOutputs[k]} dom(s.Tasks, t) && 0 <= k && k < len(s.Tasks[t].GlobOutputs) ==> s.Globs[s.Tasks[t].GlobOutputs[k]] == globSpec(fsid, s.Dir, s.Tasks[t].GlobOutputs[k])
+//@ loop 0: invariant mapval(s.Tasks) == mapval(s.Tasks) && forall t string, k int :: {s.Tasks[t].GlobDependencies[k]} $seen[t] && 0 <= k && k < len(s.Tasks[t].GlobDependencies) ==> contains(toExpand, s.Tasks[t].GlobDependencies[k])
+//@ loop 0: invariant forall t string, k int :: {s.Tasks[t].GlobOutputs[k]} $seen[t] && 0 <= k && k < len(s.Tasks[t].GlobOutputs) ==> contains(toExpand, s.Tasks[t].GlobOutputs[k])
+//@ loop 1: invariant 0 <= $i && $i <= len(toExpand) && GlobsCurrent(s)
+//@ loop 1: invariant forall j int :: {toExpand[j]} 0 <= j && j < $i ==> s.Globs[toExpand[j]] == globSpec(fsid, s.Dir, toExpand[j])
+//@ loop 1: decreases len(toExpand) - $i
 
 // Run: the statement of C03 over the order returned by dag.Sort. sortPos(lastGraph, name) is the
 // position of task `name` in the results; lastGraph / runPhase are ghost.
 //@ func (*SpokFile).Run
-//@ props C03 C09 C01 C02 C14
-//@ requires runner != nil && TasksInv(s) && I01(cp(s))
+//@ props C03 C09 C01 C02 C14 C05
+//@ requires runner != nil && TasksInv(s) && I01(cp(s)) && s.Globs != nil && GlobsCurrent(s)
 //@ modifies fexists, fdata, last, ranCount, dagV, dagE, dagItem, dagN, qpos, lastGraph, runPhase, mapOf(s.Globs)
 //@ at entry: ghost runPhase = 0
 //@ at return buildGraph#0: ghost lastGraph = dag
@@ -143,20 +155,22 @@ package file
 //@ requires NodesOK(tree.Nodes)
 //@ ensures [shape] result1 == nil ==> result0 != nil && fresh(result0) && result0.Dir == root && result0.Path == join2(root, "spokfile") && result0.Vars != nil && result0.Tasks != nil && result0.Globs != nil
 //@ ensures [C03,TasksInv] result1 == nil ==> TasksInv(result0)
+//@ ensures [C05,no-stale-expansions] result1 == nil ==> GlobsCurrent(result0)
 //@ ensures [C13,vars-are-the-last-assignments] result1 == nil ==> mapval(result0.Vars) == varsF(tree.Nodes, len(tree.Nodes))
 //@ ensures [C13,tasks-built-with-vars-so-far] result1 == nil ==> forall k int :: {tree.Nodes[k]} 0 <= k && k < len(tree.Nodes) && nodeType(tree.Nodes[k]) == ast.NodeTask ==> dom(result0.Tasks, tname(tree.Nodes[k])) && TaskMatches(result0.Tasks[tname(tree.Nodes[k])], unbox(tree.Nodes[k], ast.Task), root, varsF(tree.Nodes, k))
 //@ ensures [C03,duplicate-task-names-rejected] result1 == nil ==> forall i int, j int :: {tree.Nodes[i], tree.Nodes[j]} 0 <= i && i < j && j < len(tree.Nodes) && nodeType(tree.Nodes[i]) == ast.NodeTask && nodeType(tree.Nodes[j]) == ast.NodeTask ==> tname(tree.Nodes[i]) != tname(tree.Nodes[j])
 //@ loop 0: invariant 0 <= $i && $i <= len(tree.Nodes) && file.Vars != nil && file.Tasks != nil && file.Globs != nil && file.Dir == root && file.Path == join2(root, "spokfile")
 //@ loop 0: invariant mapval(file.Vars) == varsF(tree.Nodes, $i)
+//@ loop 0: invariant mapval(file.Globs) == mapval(file.Globs) && forall p string :: {dom(file.Globs, p)} {file.Globs[p]} dom(file.Globs, p) ==> len(file.Globs[p]) == 0
 //@ loop 0: invariant mapval(file.Tasks) == mapval(file.Tasks) && forall key string :: {dom(file.Tasks, key)} {file.Tasks[key]} dom(file.Tasks, key) ==> file.Tasks[key].Name == key
 //@ loop 0: invariant forall k int :: {tree.Nodes[k]} 0 <= k && k < $i && nodeType(tree.Nodes[k]) == ast.NodeTask ==> dom(file.Tasks, tname(tree.Nodes[k])) && TaskMatches(file.Tasks[tname(tree.Nodes[k])], unbox(tree.Nodes[k], ast.Task), root, varsF(tree.Nodes, k))
 //@ loop 0: invariant forall i int, j int :: {tree.Nodes[i], tree.Nodes[j]} 0 <= i && i < j && j < $i && nodeType(tree.Nodes[i]) == ast.NodeTask && nodeType(tree.Nodes[j]) == ast.NodeTask ==> tname(tree.Nodes[i]) != tname(tree.Nodes[j])
 //@ loop 0: decreases len(tree.Nodes) - $i
 //@ loop 1: invariant 0 <= $i && $i <= len(function.Arguments) && args == argLits(function.Arguments, $i)
 //@ loop 1: decreases len(function.Arguments) - $i
-//@ loop 2: invariant 0 <= $i
+//@ loop 2: invariant 0 <= $i && mapval(file.Globs) == mapval(file.Globs) && forall p string :: {dom(file.Globs, p)} {file.Globs[p]} dom(file.Globs, p) ==> len(file.Globs[p]) == 0
 //@ loop 2: decreases len(task.GlobDependencies) - $i
-//@ loop 3: invariant 0 <= $i
+//@ loop 3: invariant 0 <= $i && mapval(file.Globs) == mapval(file.Globs) && forall p string :: {dom(file.Globs, p)} {file.Globs[p]} dom(file.Globs, p) ==> len(file.Globs[p]) == 0
 //@ loop 3: decreases len(task.GlobOutputs) - $i
 
 // Env: one KEY=VALUE pair for every variable (envPos[k] is the index of k's pair).
@@ -166,3 +180,21 @@ package file
 //@ ensures [C13,every-variable-exported-with-its-value] forall k string :: {dom(s.Vars, k)} dom(s.Vars, k) ==> 0 <= envPos[k] && envPos[k] < len(result) && result[envPos[k]] == k + "=" + s.Vars[k]
 //@ at call append#0: ghost envPos = store(envPos, key, len(results))
 //@ loop 0: invariant mapval(s.Vars) == mapval(s.Vars) && forall k string :: {$seen[k]} $seen[k] ==> dom(s.Vars, k) && 0 <= envPos[k] && envPos[k] < len(results) && results[envPos[k]] == k + "=" + s.Vars[k]
+
+// ---- C05: glob expansion ----
+
+// the callback handed to doublestar.GlobWalk: regime G1 (only ever returns nil, except when Abs fails)
+//@ func expandGlob$1
+//@ props C05
+//@ modifies cell(matches), absFailed
+//@ at entry: ghost absFailed = false
+//@ at return Abs#0: ghost absFailed = (err != nil)
+//@ ensures [C05,callback-never-skips] result != nil ==> absFailed
+//@ ensures [C05,hidden-left-out] hasPrefixAt(path, 0, ".") ==> result == nil && matches == old(matches)
+//@ ensures [C05,match-recorded] !hasPrefixAt(path, 0, ".") && result == nil ==> matches == snoc(old(matches), absOf(join2(root, path)))
+//@ ensures [C05,error-records-nothing] result != nil ==> matches == old(matches)
+
+//@ func expandGlob
+//@ props C05
+//@ ensures [C05,exactly-the-matching-non-hidden-paths] result1 == nil ==> result0 == globSpec(fsid, root, pattern)
+//@ at return GlobWalk#0: use globwalk_iter(root, pattern, matches, err)
